@@ -274,7 +274,7 @@ def judge (line impl : String) : String :=
   if impl = want then "allowed implementation agrees with the documented definition (the model differs)"
   else
     let toks := obsTokens impl
-    let bad := toks.any (fun t => t = "panic" ∨ t = "mutated" ∨ t = "hang" ∨ t = "crash" ∨ t = "bad-case")
+    let bad := toks.any (fun t => t = "panic" ∨ t = "mutated" ∨ t = "aliased" ∨ t = "hang" ∨ t = "crash" ∨ t = "bad-case")
     match pinnedCell line with
     | some input =>
       let ty := ((line.splitOn " ").filter (· ≠ "")).getD 1 "i"
